@@ -215,6 +215,20 @@ func init() {
 		var r, s []byte
 		kind := c.str("kind")
 		e, za, msg, id := c.bytes("e"), c.bytes("za"), c.bytes("msg"), c.bytes("id")
+		if c.boolean("reuse") {
+			// the caller keeps ONE buffer per argument across the calls of a scenario and refills it in place
+			// (same lengths): anything the library remembered about the slice itself meets new contents
+			refill := func(name string, v []byte) []byte {
+				if old, ok := ctx.objs["buf:"+name].([]byte); ok && len(old) == len(v) && len(v) > 0 {
+					copy(old, v)
+					return old
+				}
+				ctx.objs["buf:"+name] = v
+				return v
+			}
+			e, za, msg, id = refill("e", e), refill("za", za), refill("msg", msg), refill("id", id)
+			px, py = refill("px", px), refill("py", py)
+		}
 		before := []B{B(cp(e)), B(cp(za)), B(cp(msg)), B(cp(id)), B(cp(priv))}
 		ev["sv_ins"] = before
 		defer func() { ev["sv_ins_after"] = []B{B(cp(e)), B(cp(za)), B(cp(msg)), B(cp(id)), B(cp(priv))} }()
